@@ -64,7 +64,13 @@ def run(ctx):
             else:
                 k = int(rng.integers(1, D + 1))
                 pos = [int(x) for x in rng.permutation(D)[:k]]
+                if rng.random() < 0.25:
+                    # the same channel requested more than once (each occurrence with its own bin count / scale)
+                    k = int(rng.integers(2, 5))
+                    pos = [int(x) for x in rng.integers(0, D, size=k)]
+                    pos[int(rng.integers(1, k))] = pos[0]
                 ch = [s0.channels[q] if rng.random() < 0.5 else q for q in pos]
+            dup = len(set(pos)) < len(pos)
             k = len(pos)
             is_list = ch is None or isinstance(ch, list)
             r = rng.random()
@@ -72,12 +78,12 @@ def run(ctx):
                 nb = None
             elif r < 0.5:
                 nb = int(rng.choice([1, 2]))
-            elif r < 0.8 or not is_list:
+            elif (r < 0.8 and not dup) or not is_list:
                 nb = int(rng.integers(3, 300))
             else:
                 nb = [None if rng.random() < 0.3 else int(rng.integers(1, 200)) for _ in range(k)]
             scales = ['linear', 'log', 'logicle']
-            if is_list and rng.random() < 0.3:
+            if is_list and rng.random() < (0.6 if dup else 0.3):
                 sc = [str(rng.choice(scales)) for _ in range(k)]
             else:
                 sc = str(rng.choice(scales))
